@@ -30,7 +30,7 @@ RULE = ("calls from the generators of C01 (diff/interp/min/max), C09 (cumsum), C
         "of axis names, dimension names, data/coordinate variable names and dummy names drawn from a pool of "
         "awkward identifiers (single letters t e r c l i o n, names containing or contained in the position words, "
         "prefixes / substrings of each other, upper/lower-case variants, 12-character names, the package's own "
-        "temporary names temp_unique / temp_dim_target / xdummy / TRANSFORMED_DIMENSION); axis arguments as plain "
+        "temporary names temp_unique / temp_dim_target / xdummy); axis arguments as plain "
         "strings or lists. Plus: signature strings under renaming (printing, re-parsing, equivalence), COMODO "
         "datasets under renaming of dimensions and axis attribute values, integrate with renamed metrics. The "
         "renamed outcome must be the renaming of the original outcome (accept/reject, exception class, dims, "
@@ -39,7 +39,7 @@ RULE = ("calls from the generators of C01 (diff/interp/min/max), C09 (cumsum), C
 POOL = ["t", "e", "r", "c", "l", "i", "o", "n", "X", "x", "XX", "X_", "Xc", "cX", "center_x", "xcenter", "le",
         "cent", "enter", "inn", "outerY", "rightmost", "leftover", "Center", "LEFT", "Inner", "aaaaaaaaaaaa", "lon",
         "longitude", "lat", "la", "dummy", "xdummy", "ydummy", "temp_unique", "temp_dim_target",
-        "TRANSFORMED_DIMENSION", "face", "axis", "dims", "Z", "z", "zz", "k", "K", "depth", "dept", "epth", "Y", "y",
+        "face", "axis", "dims", "Z", "z", "zz", "k", "K", "depth", "dept", "epth", "Y", "y",
         "y_c", "x_c", "x_l", "outer_", "_left", "right_x", "s", "rho", "dens", "T", "temp", "q", "lev", "sigma"]
 
 
